@@ -312,6 +312,7 @@ pub fn gen_cfg(i: usize) -> crate::progen::Cfg {
         overlapping_impls: i % 4 < 2,
         result_only_generics: i % 4 != 1,
         cov_shapes: i % 5 == 2,
+        finite_polyrec: i % 3 == 0,
         ..Default::default()
     }
 }
@@ -441,6 +442,35 @@ pub fn main(args: &util::Args) {
             writeln!(out, "{}\tILL\tcorpus-neg\t{}\t{}\t{}\t{}", id, f.file_stem().unwrap().to_string_lossy(), outcome, stage, esc_line(&msg)).unwrap();
         }
     }
+    // ---- rigid type parameters: one ill-typed hole inside a generic function (calls of function-typed
+    // parameters / let-bound closures / closure-returning calls at a concrete type, T vs U, a `(T) -> T` where
+    // a `(C) -> C` is expected, x: T returned as C, Ref/Vec/tuple/array/Opt positions); the twin without the
+    // hole must be accepted, the program with it rejected by the typer
+    let nrigid = if args.tier == "thorough" { 600 } else { 120 };
+    for i in 0..nrigid {
+        let mut rng = crate::rng::Rng::new(args.seed ^ 0x7161d).fork(i as u64);
+        let (kind, good, bad) = rigid_program(&mut rng, i);
+        let id = format!("rigid:{}:{}", args.seed, i);
+        let st0 = run_in(&dir, &good);
+        if st0.core.is_none() {
+            writeln!(out, "{}\tSRC\t{}", id, esc_line(&good)).unwrap();
+            writeln!(out, "{}\tILL\t{}\ttwin\tbase-rejected\t\t{}", id, kind, esc_line(&st0.stop.map(|x| x.2).unwrap_or_default())).unwrap();
+            continue;
+        }
+        let st = run_in(&dir, &bad);
+        let (outcome, stage, msg) = match &st.stop {
+            None => ("accepted", "", String::new()),
+            Some((k, stage, m)) => (if *k == "reject" { "rejected" } else { "panic" }, *stage, m.clone()),
+        };
+        *kinds_total.entry(kind.clone()).or_default() += 1;
+        writeln!(out, "{}\tSRC\t{}", id, esc_line(&bad)).unwrap();
+        writeln!(out, "{}\tILL\t{}\trigid-type-parameter\t{}\t{}\t{}", id, kind, outcome, stage, esc_line(&msg)).unwrap();
+        if outcome == "accepted" {
+            let mut o2 = String::new();
+            emit(&id, None, &st, &mut o2);
+            out.push_str(&o2);
+        }
+    }
     writeln!(out, "#KINDS\t{}", kinds_total.iter().map(|(k, v)| format!("{}={}", k, v)).collect::<Vec<_>>().join(" ")).unwrap();
     writeln!(out, "#FEATS\t{}", feats_total.iter().map(|(k, v)| format!("{}={}", k, v)).collect::<Vec<_>>().join(" ")).unwrap();
     let _ = std::fs::remove_dir_all(&dir);
@@ -498,3 +528,51 @@ const ILL_TEMPLATES: &[(&str, &str, &str)] = &[
     ("dyn-no-impl", "arg-type", "trait Tr { fn m(Self) -> int32; }\nimpl Tr for int32 { fn m(self: int32) -> int32 { self } }\nfn main() -> unit { let d: dyn Tr = \"s\"; () }\n"),
     ("tuple-proj", "unknown-field", "fn main() -> unit { let t = (1, 2); string_println(int32_to_string(t.2)) }\n"),
 ];
+
+/// concrete types for the rigid-parameter family: (type text, a value, code turning `r` of that type into a string)
+const CTYS: &[(&str, &str, &str)] = &[
+    ("int32", "7", "int32_to_string(r)"),
+    ("string", "\"s\"", "r"),
+    ("bool", "true", "bool_to_string(r)"),
+    ("int64", "5i64", "int64_to_string(r)"),
+];
+
+/// (kind, well-typed twin, ill-typed program).  `C` is the concrete type that meets the rigid parameter, `D` the
+/// type the generic function is instantiated at in `main` (sometimes `C` itself: the nastiest case, the ill-typed
+/// program would even "work" at that one instantiation).
+fn rigid_program(rng: &mut crate::rng::Rng, i: usize) -> (String, String, String) {
+    let c = *rng.pick(CTYS);
+    let d = if rng.chance(1, 3) { c } else { *rng.pick(CTYS) };
+    let (ct, cv) = (c.0, c.1);
+    let (dt, dv, dshow) = (d.0, d.1, d.2);
+    // every template: (kind, prelude, generic function with the hole `@`, right filler, wrong filler, main body
+    // computing `r` of type D or as stated, printer)
+    let pre = format!(
+        "enum Opt[T] {{ Non, Som(T) }}\nstruct Bx[T] {{ v: T }}\nfn opt_or[T](o: Opt[T], d: T) -> T {{ match o {{ Opt::Som(x) => x, Opt::Non => d }} }}\n\
+         fn idd(a: {dt}) -> {dt} {{ a }}\nfn idc(a: {ct}) -> {ct} {{ a }}\nfn mk[T](x: T) -> (T) -> T {{ |y: T| x }}\nfn wants(k: ({ct}) -> {ct}) -> {ct} {{ k({cv}) }}\n",
+        dt = dt, ct = ct, cv = cv
+    );
+    let show_d = format!("string_println({})", dshow);
+    let t: Vec<(&str, String, &str, String, String, String)> = vec![
+        ("call-of-function-parameter", "fn h[T](f: (T) -> T, x: T) -> T { f(@) }".into(), "x", cv.into(), format!("let r: {} = h(idd, {}); ", dt, dv), show_d.clone()),
+        ("call-of-let-bound-closure", "fn h[T](f: (T) -> T, x: T) -> T { let g = |y: T| f(y); g(@) }".into(), "x", cv.into(), format!("let r: {} = h(idd, {}); ", dt, dv), show_d.clone()),
+        ("call-inside-closure-body", "fn h[T](f: (T) -> T, x: T) -> T { let g = |y: T| f(@); g(x) }".into(), "y", cv.into(), format!("let r: {} = h(idd, {}); ", dt, dv), show_d.clone()),
+        ("call-of-returned-closure", "fn h[T](x: T) -> T { let k = mk(x); k(@) }".into(), "x", cv.into(), format!("let r: {} = h({}); ", dt, dv), show_d.clone()),
+        ("result-of-local-call-used-as-concrete", format!("fn h[T](f: (T) -> T, x: T) -> T {{ let a: @ = f(x); a }}"), "T", ct.into(), format!("let r: {} = h(idd, {}); ", dt, dv), show_d.clone()),
+        ("type-parameters-mixed-up", "fn h[T, U](f: (T) -> U, t: T, u: U) -> U { f(@) }".into(), "t", "u".into(), format!("let r: {} = h(idd, {}, {}); ", dt, dv, dv), show_d.clone()),
+        ("generic-function-value-where-concrete-expected", format!("fn h[T](f: (@) -> @, x: T) -> {ct} {{ wants(f) }}", ct = ct), ct, "T".into(), format!("let r0: {} = h(idc, {}); ", ct, dv), format!("let r = r0; string_println({})", c.2)),
+        ("parameter-returned-as-concrete", format!("fn h[T](x: T, y: {ct}) -> {ct} {{ @ }}", ct = ct), "y", "x".into(), format!("let r0: {} = h({}, {}); ", ct, dv, cv), format!("let r = r0; string_println({})", c.2)),
+        ("ref-of-parameter", "fn h[T](r: Ref[T], x: T) -> T { let _ = ref_set(r, @); ref_get(r) }".into(), "x", cv.into(), format!("let r: {} = h(ref({}), {}); ", dt, dv, dv), show_d.clone()),
+        ("vec-of-parameter", "fn h[T](v: Vec[T], x: T) -> Vec[T] { vec_push(v, @) }".into(), "x", cv.into(), format!("let v0: Vec[{}] = vec_new(); let r0 = h(v0, {}); let r = vec_get(r0, 0); ", dt, dv), show_d.clone()),
+        ("tuple-position", "fn h[T](x: T) -> (T, int32) { (@, 1) }".into(), "x", cv.into(), format!("let r0: ({}, int32) = h({}); let r = r0.0; ", dt, dv), show_d.clone()),
+        ("annotated-let", "fn h[T](x: T) -> T { let y: T = @; y }".into(), "x", cv.into(), format!("let r: {} = h({}); ", dt, dv), show_d.clone()),
+        ("array-element", "fn h[T](x: T) -> [T; 2] { [x, @] }".into(), "x", cv.into(), format!("let r0: [{}; 2] = h({}); let r = array_get(r0, 1); ", dt, dv), show_d.clone()),
+        ("argument-of-generic-callee", "fn h[T](o: Opt[T], x: T) -> T { opt_or(o, @) }".into(), "x", cv.into(), format!("let o0: Opt[{}] = Opt::Non; let r: {} = h(o0, {}); ", dt, dt, dv), show_d.clone()),
+        ("branch-of-if", "fn h[T](c: bool, x: T) -> T { if c { x } else { @ } }".into(), "x", cv.into(), format!("let r: {} = h(false, {}); ", dt, dv), show_d.clone()),
+        ("field-of-generic-struct", "fn h[T](x: T) -> Bx[T] { Bx { v: @ } }".into(), "x", cv.into(), format!("let r0: Bx[{}] = h({}); let r = r0.v; ", dt, dv), show_d.clone()),
+        ("concrete-closure-where-generic-expected", format!("fn ap[T](f: (T) -> T, x: T) -> T {{ f(x) }}\nfn h[T](x: T) -> T {{ ap(|y: @| y, x) }}"), "T", ct.into(), format!("let r: {} = h({}); ", dt, dv), show_d.clone()),
+    ];
+    let (kind, f, right, wrong, main_body, show) = &t[i % t.len()];
+    let build = |fill: &str| format!("{}{}\nfn main() -> unit {{ {}{} }}\n", pre, f.replace('@', fill), main_body, show);
+    (format!("rigid-{}", kind), build(right), build(wrong))
+}
